@@ -267,7 +267,8 @@ func (exp *compactExpiration) rawExpireAt(dataType byte, key []byte, rawValue []
 	switch dataType {
 	case HashType, KVType, SetType, BitmapType, ListType, ZSetType:
 		h := newHeaderMetaV1()
-		if when >= int64(math.MaxUint32-1) {
+		if when >= int64(math.MaxUint32-1) || when < 0 {
+			// a negative absolute time would wrap around in the uint32 header field
 			return nil, errExpOverflow
 		}
 		_, err := h.decode(rawValue)
